@@ -53,6 +53,7 @@ type pscript struct {
 	bodyOn304  bool // the handler writes a body although the status allows none (204, 304): net/http refuses it, nothing of it is sent
 	again      int  // a superfluous WriteHeader call, which net/http ignores: 1 straight after the first, 2 after the first Write
 	copyMode   int  // 0 Write; 1 io.Copy from a plain Reader (ReadFrom where offered); 2 io.Copy from a WriterTo; 3 io.WriteString
+	badCode    bool // (panicAt 0) the panic is net/http's, refusing the status 1000 the handler writes
 	panicAt    int  // -1: never; k: before write k (0 = before anything is written); len(writes): after all writes
 	readBody   bool
 	readSizes  []int
@@ -171,11 +172,37 @@ var logFrags = []logFrag{
 		}
 		return "A=10.0.0.1"
 	}},
+	// the name of a shorthand behind an escaped brace is text like any other
+	{"G", `G=\{common}`, func(*sreq, string, string, string, string) string { return "G={common}" }},
+	// the user name basicauth read from the request, where it protects the path: the marker when there is none
+	{"P", `P={user}`, func(q *sreq, _, _, _, _ string) string {
+		if p, err := url.PathUnescape(q.path); !siteHasAuth || err != nil || !strings.HasPrefix(strings.ToLower(p), "/p/auth") {
+			return "P=-"
+		}
+		var lines []string
+		for _, h := range q.hdrs {
+			if h[0] == "Authorization" {
+				lines = append(lines, h[1])
+			}
+		}
+		if q.auth {
+			lines = append(lines, "Basic Ym9iOmh1bnRlcjI=")
+		}
+		if len(lines) > 0 {
+			if u, _, ok := (&http.Request{Header: http.Header{"Authorization": lines}}).BasicAuth(); ok && u != "" {
+				return "P=" + u
+			}
+		}
+		return "P=-"
+	}},
 	{"Y", `Y={request_body}`, func(q *sreq, _, _, _, _ string) string { return "Y=\x00" }},
 }
 
 // siteIPMask: the current run's first log directive has "ipmask 255.255.0.0" (one run at a time per process).
 var siteIPMask bool
+
+// siteHasAuth: the current run's site has "basicauth /p/auth".
+var siteHasAuth bool
 
 var evilValues = []string{"10.0.0.1", "for=10.0.0.1;proto=http", "plain", "{host}", "{>X-Req}", "{status}", `\{`, "}", "{", "{~ck}", "{?q}", "{{host}}", "{>X-Evil}", "a{b}c", `\}`, "{nosuch}", "%7Bhost%7D"}
 
@@ -224,6 +251,11 @@ func (r *siteRig) probe(label string, next httpserver.Handler, w http.ResponseWr
 	if sc.mode == "return" {
 		if sc.panicAt == 0 {
 			c.Fault("handler-panic-before-write")
+			if sc.badCode {
+				// a status net/http refuses (it panics in WriteHeader): nothing has gone out
+				c.Fault("handler-writes-a-status-net/http-refuses")
+				w.WriteHeader(1000)
+			}
 			panic("sim: scripted handler panic before writing")
 		}
 		park("return")
@@ -295,6 +327,10 @@ func (r *siteRig) probe(label string, next httpserver.Handler, w http.ResponseWr
 	}
 	if sc.panicAt == 0 {
 		c.Fault("handler-panic-before-write")
+		if sc.badCode {
+			c.Fault("handler-writes-a-status-net/http-refuses")
+			w.WriteHeader(1000)
+		}
 		panic("sim: scripted handler panic before writing")
 	}
 	if sc.hints {
@@ -583,6 +619,7 @@ func runSite(mode string) sim.RigFunc {
 		r.log2 = mode == "C20" && pick(50)
 		r.log3 = r.log2 && pick(60)
 		siteIPMask = mode == "C20" && pick(30)
+		siteHasAuth = r.hasAuth
 		r.archive = mode == "C12" && pick(30)
 		// the log format of this run: the request id first, then a random arrangement of fragments
 		perm := make([]int, len(logFrags))
@@ -1064,6 +1101,7 @@ func (r *siteRig) genReq(id, site string) *sreq {
 		if sc.mode == "return" {
 			sc.panicAt = 0
 		}
+		sc.badCode = sc.panicAt == 0 && pick(40)
 	}
 	return q
 }
@@ -1757,6 +1795,9 @@ func (r *siteRig) judgeLogN(lines []string, scope, which string) {
 }
 
 func (r *siteRig) judgeLog(lines []string) {
+	if os.Getenv("SIM_DUMPLOG") != "" {
+		fmt.Println(strings.Join(lines, "\n"))
+	}
 	c := r.c
 	byReq := map[string][]string{}
 	for _, l := range lines {
@@ -1790,9 +1831,11 @@ func (r *siteRig) judgeLog(lines []string) {
 			c.Violate("C20/line-count", sig, "request %s (%s %s, status on the wire %d) produced %d access-log lines, want exactly 1 (%s; script %s)", q.id, q.method, q.path, q.resp.Status, len(got), r.dirSig(), q.script.describe())
 			continue
 		}
-		if panicked {
+		if panicked && !(q.script.panicAt == 0 && r.hasErrors) {
 			continue // status/size of a response cut by a panic are not comparable
 		}
+		// (a panic before anything was written, recovered by the errors directive, ends in a complete
+		// response like any other: its line is compared)
 		uri := q.path
 		if q.query != "" {
 			uri += "?" + q.query
@@ -1838,7 +1881,7 @@ func (r *siteRig) judgeLog(lines []string) {
 		if gotLine != want {
 			field := "other"
 			for _, f := range r.frags {
-				if !strings.Contains(got[0], f.eval(q, uri, dash(hv("X-Evil")), dash(qv), dash(ck))) {
+				if !strings.Contains(gotLine, f.eval(q, uri, dash(hv("X-Evil")), dash(qv), dash(ck))) {
 					field = f.name
 					break
 				}
@@ -1858,7 +1901,7 @@ func fieldOf(line, f string) string {
 		return ""
 	}
 	rest := line[i+len(f):]
-	for _, nf := range []string{" S=", " Z=", " M=", " U=", " E=", " Q=", " C=", " L=", " N=", " H="} {
+	for _, nf := range []string{" S=", " Z=", " M=", " U=", " E=", " Q=", " C=", " L=", " N=", " H=", " G=", " P="} {
 		if j := strings.Index(rest, nf); j >= 0 {
 			rest = rest[:j]
 		}
